@@ -73,8 +73,8 @@ static void check_listing(econf_file *kf, const e2_model *m, const char *sig, co
 static void check_gets(econf_file *kf, e2_model *m, const char *sig, const char *when)
 {
   const char *secs[10] = { NULL, "", "A", "[A]", "B", "[B]", "C", "Z", "AB", "[AB]" };
-  const char *keys[7] = { "x", "y", "z", "p8", "q", "xy" };
-  for (int si = 0; si < 10; si++) for (int ki = 0; ki < 6 && !mc_case_failed; ki++) {
+  const char *keys[8] = { "x", "y", "z", "p8", "q", "xy", "X" };
+  for (int si = 0; si < 10; si++) for (int ki = 0; ki < 7 && !mc_case_failed; ki++) {
     e2_ent *e = e2m_find(m, e2_canon_sec(secs[si]), keys[ki]);
     char *v = (char *)(uintptr_t)0x30;
     econf_err rc = econf_getStringValue(kf, secs[si], keys[ki], &v);
